@@ -39,6 +39,9 @@ STRENGTHENED = {
     "C15f": "new oracle `zero_volume_many_draws`: 4 snapshots x 1e6 samples per evaluation from textures with zero-volume grains (6.4e7 draws per quick run), with exact zero-draw, membership and per-grain proportion checks",
     "C17f": "new oracle `large_entries`: minerals of 2000..9000 grains with enough snapshots for 12..40 MiB archive entries, saved under a postfix next to a small mineral and as a whole file, loaded back through both loaders",
     "C20f": "conversion tolerances now follow the measured accuracy of the conversion pair (3.8e-16 |v| over 2e5 points down to 1e-17 rad from either pole, |v| in 1e-150..1e150): round trip 1e-13 |v|, colatitude 1e-14 rad against atan2(hypot(x,y), z)",
+    "C15g": "one stack in six is made of simplex vertices written with integers ([[0, 0, 1], ...]); the grain holding all the volume must be the only one drawn; volumes are compared by value",
+    "C17g": "the postfix pool now contains names that differ only in characters outside [A-Za-z0-9_] or in case (a-b/ab/a_b, 1-/-1/1, A/a, ...)",
+    "C20g": "one density case in six has 3000..40000 data on a coarse grid and runs all five kernels on the same data; the known-finding class `zero_grid_mean` is only assigned when the raw totals are finite with a (numerically) zero mean",
     "C20": "new differential part of `point_density`: raw estimates are rebuilt from the documented counting grid with pydrex's kernel functions, normalised, clipped and compared (1e-9)",
 }
 
@@ -51,7 +54,7 @@ def seeded_table():
         first = m.get("first_verdict")
         final = "caught" if any(v["caught"] for v in checks.values()) else "MISSED"
         allc = all(v["caught"] for v in checks.values()) if checks else False
-        rows.append(f"| {name} | {m.get('breaks_property','')} | {m.get('summary','').replace('|','/').replace(chr(10),' ')[:150]} | {m.get('needs','').replace('|','/').replace(chr(10),' ')[:120]} | {first or ('caught' if allc else 'see meta.json')} | {final} | {STRENGTHENED.get(name, '-') if (first or '').startswith('missed') or name in ('C14b', 'C05f') else '-'} |")
+        rows.append(f"| {name} | {m.get('breaks_property','')} | {m.get('summary','').replace('|','/').replace(chr(10),' ')[:150]} | {m.get('needs','').replace('|','/').replace(chr(10),' ')[:120]} | {first or ('caught' if allc else 'see meta.json')} | {final} | {STRENGTHENED.get(name, '-') if (first or '').startswith('missed') or name in ('C14b', 'C05f', 'C17g') else '-'} |")
     return "\n".join(rows)
 
 def round_stats():
@@ -86,14 +89,16 @@ same effect as `git -C /repo apply` without disturbing concurrent runs that read
 A change that the quick tier missed at first was used to strengthen the generator or the
 oracle of that property - never by special-casing the change - and then re-evaluated at
 several seeds. Six rounds of 20 changes (one per property and round; later rounds were told
-what the earlier ones had done and which generic tricks to avoid) were first missed as
+what the earlier ones had done and which generic tricks to avoid) and a seventh half round
+(10 properties, 8 valid changes; the two agents whose change broke an existing test were
+discarded) were first missed as
 follows: {round_stats()}. The rate did not fall to zero: every round of fresh adversaries
 still found inputs just outside what the generators covered at that time (argument aliasing
 and in-place writes, integer dtypes, magnitudes far from 1, sizes at the top of the stated
 range, numpy-integer enumeration fields after a checkpoint, negative ordinals, regimes other
 than the default, shapes that coincide with 3, interpreter aborts inside numba). After the
 strengthening all {n_total} are caught by the quick tier at three seeds, but the honest
-reading is that a seventh round would again find a few that are not; the generators now
+reading is that another round would again find a few that are not; the generators now
 cover the classes listed above for every property where they apply, not only where the
 miss occurred (section 8, "The same values in every form a user would type them").
 
